@@ -296,6 +296,126 @@ theorem buildTable_inv {prio : String → Nat} (defs : List (String × String)) 
 theorem tableInv_empty (prio : String → Nat) : TableInv prio [] [] :=
   ⟨fun _ _ h => (by cases h), fun _ _ _ h => (by simp [lookupStr] at h)⟩
 
+/-! ### call-site kwargs -/
+
+theorem strEntries_append (a b : List (Key × Value)) :
+    strEntries (a ++ b) = strEntries a ++ strEntries b := by
+  induction a with
+  | nil => rfl
+  | cons e a ih =>
+    obtain ⟨k, v⟩ := e
+    cases k <;> simp [strEntries, ih]
+
+theorem lookupStr_append {α : Type} (k : String) (a b : List (String × α)) :
+    lookupStr k (a ++ b) = (lookupStr k a).or (lookupStr k b) := by
+  induction a with
+  | nil => simp [lookupStr]
+  | cons e a ih =>
+    obtain ⟨k', v⟩ := e
+    simp only [List.cons_append, lookupStr]
+    split
+    · simp
+    · exact ih
+
+theorem supplied_of_any (m : List (Key × Value)) (s : List Char)
+    (h : m.any (fun e => e.1 == Key.str s) = true) :
+    ∃ v, supplied m (String.ofList s) = some v := by
+  induction m with
+  | nil => simp at h
+  | cons e m ih =>
+    obtain ⟨k, v⟩ := e
+    simp only [List.any_cons, Bool.or_eq_true, beq_iff_eq] at h
+    cases k with
+    | str s' =>
+      by_cases hs : s' = s
+      · subst hs
+        exact ⟨v, by simp [supplied, strEntries, lookupStr]⟩
+      · have hm : m.any (fun e => e.1 == Key.str s) = true := by
+          cases h with
+          | inl h => simp only [Key.str.injEq] at h; exact absurd h hs
+          | inr h => exact h
+        obtain ⟨w, hw⟩ := ih hm
+        have hne : (String.ofList s' == String.ofList s) = false := by
+          simp only [beq_eq_false_iff_ne, ne_eq]
+          intro heq
+          apply hs
+          have := congrArg String.toList heq
+          simpa using this
+        exact ⟨w, by simp only [supplied, strEntries, lookupStr, hne]; exact hw⟩
+    | _ =>
+      have hm : m.any (fun e => e.1 == Key.str s) = true := by
+        cases h with
+        | inl h => cases h
+        | inr h => exact h
+      obtain ⟨w, hw⟩ := ih hm
+      exact ⟨w, by simp only [supplied, strEntries]; exact hw⟩
+
+/-- what a single entry says about the string key `k` -/
+def entryMention (k : String) (k' : Key) (v : Value) : Option Value :=
+  match k' with
+  | .str s => if String.ofList s == k then some v else none
+  | _ => none
+
+theorem supplied_insertIfAbsent (m : List (Key × Value)) (k' : Key) (v : Value) (k : String) :
+    supplied (insertIfAbsent m k' v) k = (supplied m k).or (entryMention k k' v) := by
+  unfold insertIfAbsent
+  split
+  · rename_i hany
+    cases hs : supplied m k with
+    | some x => simp
+    | none =>
+      simp only [Option.none_or]
+      cases k' with
+      | str s =>
+        simp only [entryMention]
+        split
+        · rename_i heq
+          have heq' : String.ofList s = k := by simpa using heq
+          obtain ⟨w, hw⟩ := supplied_of_any m s hany
+          rw [heq', hs] at hw
+          cases hw
+        · rfl
+      | _ => rfl
+  · simp only [supplied, strEntries_append, lookupStr_append]
+    congr 1
+    cases k' with
+    | str s =>
+      simp only [strEntries, lookupStr, entryMention]
+    | _ => simp [strEntries, lookupStr, entryMention]
+
+theorem supplied_spread (es m : List (Key × Value)) (k : String) :
+    supplied (es.foldl (fun m e => insertIfAbsent m e.1 e.2) m) k
+      = (supplied m k).or (lookupStr k (strEntries es)) := by
+  induction es generalizing m with
+  | nil => simp [strEntries, lookupStr]
+  | cons e es ih =>
+    obtain ⟨k', v⟩ := e
+    simp only [List.foldl_cons]
+    rw [ih, supplied_insertIfAbsent, Option.or_assoc]
+    congr 1
+    cases k' with
+    | str s =>
+      simp only [entryMention, strEntries, lookupStr]
+      split <;> simp
+    | _ => simp [entryMention, strEntries]
+
+theorem supplied_addAttr (m : List (Key × Value)) (a : Attr) (k : String) :
+    supplied (addAttr m a) k = (supplied m k).or (a.mention k) := by
+  cases a with
+  | kv k' v =>
+    simp only [addAttr, supplied_insertIfAbsent, entryMention, Attr.mention, String.ofList_toList]
+  | spread es => simp only [addAttr, supplied_spread, Attr.mention]
+
+theorem supplied_foldl (attrs : List Attr) (m : List (Key × Value)) (k : String) :
+    supplied (attrs.foldl addAttr m) k = (supplied m k).or (attrs.findSome? (Attr.mention k)) := by
+  induction attrs generalizing m with
+  | nil => simp
+  | cons a attrs ih =>
+    simp only [List.foldl_cons, List.findSome?_cons]
+    rw [ih, supplied_addAttr, Option.or_assoc]
+    congr 1
+    cases a.mention k <;> simp
+
 /-! ### popN -/
 
 theorem popN_append (l s : List Tera.SafeFlow.TVal) :
